@@ -786,8 +786,9 @@ def parse_tag(text: str, parser: Optional[Parser]) -> Tuple[str, List[TagAttr]]:
                 # - `*` - Inside lists: `{% component key=[ *spread ] %}`
                 # - `**` - Inside dicts: `{% component key={ **spread } %}`
                 spread_token = extract_spread_token(curr_value, filter_token)
-                # Handle top-level spread `{% component ...attrs %}`
-                if curr_value.type == "simple":
+                # Handle top-level spread `{% component ...attrs %}`. Only the first part of a value can carry
+                # the spread; the following parts (filters) must not reset it, e.g. `...attrs|default:other`.
+                if curr_value.type == "simple" and filter_token is None:
                     curr_value.spread = spread_token
 
                 # IMPORTANT!!! Depending on whether we're in a list or dict, there may be extra terminal tokens.
